@@ -121,13 +121,13 @@ def build_model(cfg):
     return m, in_sig, out_sig
 
 
-def run_cell(cfg, cx):
+def run_cell(cfg, cx, prebuilt=None):
     import jax.numpy as jnp
     from jxsmt import sym as S, interp as I, refs, stubs
 
     LC.enable_network_mode()
     D, N = cfg["D"], cfg["N"]
-    m, in_sig, out_sig = build_model(cfg)
+    m, in_sig, out_sig = prebuilt if prebuilt is not None else build_model(cfg)
     order = [q for q, _ in in_sig]
     torus = bool(cfg["torus"])
     P, f, info = LC.symbolic_model(m, S)
@@ -163,7 +163,7 @@ def run_cell(cfg, cx):
                      key=f"eq:{ckey}:t={q}:g={gkey(g)}")
     # translations on toroidal inputs: every unit shift for the ResNets / blocks, multiples of the pooling factor for the U-Net
     if torus:
-        step = 2 ** cfg["down"] if cfg["cls"] == "unet" else 1
+        step = 2 ** cfg["down"] if str(cfg["cls"]).endswith("unet") else 1
         eye = np.eye(D, dtype=int)
         for d in range(D):
             rx = {q: S.Sym(np.roll(v.a, step, axis=1 + d)) for q, v in x.items()}
